@@ -96,6 +96,9 @@ def run(tier, seed):
         p["obs"] = [{"obs": "struct"}, {"obs": "history", "calls": calls, "program": base},
                     {"obs": "oracle", "name": "c11", "calls": calls, "program": base}]
         progs.append(p)
+    # a known finding that the check exhibits on every run: graph keys are stored on the objects a model is built from, so
+    # finalising a second model that shares a Stratification object re-labels what the first one reads
+    progs.append(carrier([{"obs": "oracle", "name": "c11_shared_keys"}]))
     ex = checklib.explore(progs, keys=KEYS, per_prog_timeout=90.0)
     # other interpreter hash seeds: the same programs and histories in fresh processes; every number must be
     # bit-identical to the PYTHONHASHSEED=0 run (JSON floats are shortest round-trip representations)
